@@ -1,10 +1,10 @@
 package pshell
 
 import (
-	"strings"
 	"fmt"
 	"os"
 	"path/filepath"
+	"strings"
 	"sync"
 	"testing"
 
@@ -388,6 +388,11 @@ func TestC16Rand(t *testing.T) {
 			base := rapid.SampledFrom([]int{4096, 4096, 8192}).Draw(t, "boundary")
 			c.Pad = max(0, base-rapid.IntRange(0, len(b)+2).Draw(t, "before"))
 			c.PadKind = rapid.IntRange(0, 3).Draw(t, "padKind")
+		}
+		if vk.Rare(t, "mega", 400) {
+			// a megabyte and more
+			c.Pad = rapid.SampledFrom([]int{1 << 19, 1 << 20, 1<<20 + 4096, 1 << 21}).Draw(t, "megaPad") - rapid.IntRange(0, len(b)+3).Draw(t, "megaBefore")
+			c.PadKind = rapid.IntRange(0, 3).Draw(t, "megaKind")
 		}
 		if rapid.IntRange(0, 7).Draw(t, "manyFields") == 0 {
 			c.Fields = rapid.SampledFrom([]int{14, 15, 16, 17, 31, 32, 33, 63, 64, 65}).Draw(t, "fields") - rapid.IntRange(0, 2).Draw(t, "fieldsOff")
